@@ -10,7 +10,8 @@ A history is a list of commands (JSON-able dicts):
   {'op': 'edit', 'proj': 'top'|'sub', 'name': n, 'spec': spec|None}    rewrite the option file (None removes n)
 
 `key` is written as on the command line: `t_str`, `sub:s_str`, `warning_level`, `sub:warning_level`.
-An option spec is {'t': 'string'|'boolean'|'combo'|'integer', 'd': default, ['c': choices], ['min','max'], ['y': True]}.
+An option spec is {'t': 'string'|'boolean'|'combo'|'integer'|'array', 'd': default, ['c': choices (array: may be
+None)], ['min','max'], ['y': True]}.
 
 Observation after every step (all values canonical strings: true/false, decimal, text):
   rc       'ok' | 'fail'
@@ -41,6 +42,8 @@ FIXED_TOP = ['boom', 'boom_late']  # failure switches, always present in the top
 # ---------------------------------------------------------------- source tree
 
 def fmt_lit(v: T.Any) -> str:
+    if isinstance(v, list):
+        return '[' + ', '.join(fmt_lit(x) for x in v) + ']'
     if isinstance(v, bool):
         return 'true' if v else 'false'
     if isinstance(v, int):
@@ -50,7 +53,7 @@ def fmt_lit(v: T.Any) -> str:
 
 def option_line(name: str, sp: dict) -> str:
     parts = [f"'{name}'", f"type: '{sp['t']}'"]
-    if sp['t'] == 'combo':
+    if sp['t'] == 'combo' or (sp['t'] == 'array' and sp.get('c') is not None):
         parts.append('choices: [' + ', '.join(fmt_lit(c) for c in sp['c']) + ']')
     if sp['t'] == 'integer':
         if sp.get('min') is not None:
@@ -63,18 +66,28 @@ def option_line(name: str, sp: dict) -> str:
     return 'option(' + ', '.join(parts) + ')\n'
 
 
+# default_options of the build files (fixed; the options they name are never removed by a history)
+PDO_TOP = ['shared=b', 'sub:warning_level=2']     # project('top', default_options: …)
+PDO_SUB = ['s_fix=frompdo']                       # project('sub', default_options: …)
+SPCALL = ['s_fix2=fromcall']                      # subproject('sub', default_options: …)
+
+
+def _dol(l: T.List[str]) -> str:
+    return '[' + ', '.join("'" + x + "'" for x in l) + ']'
+
+
 def write_tree(src: str, files: T.Dict[str, T.Dict[str, dict]]) -> None:
     """(re)write option files and the meson.build files that print every option of the current files"""
     for proj, d in (('top', src), ('sub', os.path.join(src, 'subprojects', 'sub'))):
         os.makedirs(d, exist_ok=True)
         names = list(files[proj])
-        body = [f"project('{proj}', meson_version: '>=1.1')\n"]
+        body = [f"project('{proj}', meson_version: '>=1.1', default_options: {_dol(PDO_TOP if proj == 'top' else PDO_SUB)})\n"]
         for n in names + [BUILTIN]:
             body.append(f"message('OPT {proj}:{n} = @0@'.format(get_option('{n}')))\n")
         if proj == 'top':
             body.append("if get_option('boom')\n  error('boom')\nendif\n")
             body.append("if get_option('boom_late')\n  meson.add_postconf_script('false')\nendif\n")
-            body.append("subproject('sub')\n")
+            body.append(f"subproject('sub', default_options: {_dol(SPCALL)})\n")
         with open(os.path.join(d, 'meson.build'), 'w') as f:
             f.write(''.join(body))
         with open(os.path.join(d, 'meson.options'), 'w') as f:
@@ -228,7 +241,8 @@ def run_history(init_files: T.Dict[str, T.Dict[str, dict]], hist: T.List[dict], 
                     for line in p.stdout.split('\n'):
                         m = MSG_RE.match(line.strip())
                         if m:
-                            msgs[m.group(1) + ':' + m.group(2)] = m.group(3)
+                            # an array is printed as ['x', 'y']; canonical form [x, y]
+                            msgs[m.group(1) + ':' + m.group(2)] = m.group(3).replace("'", '')
                     ob['msgs'] = msgs
             ob.update(observe(bd))
             if i in isteps:
